@@ -512,7 +512,9 @@ fn instantiate_generic_type(
             return LuaType::Generic(LuaGenericType::new(type_decl_id, new_params).into());
         }
 
-        let new_substitutor = TypeSubstitutor::from_alias(new_params.clone(), type_decl_id.clone());
+        let mut new_substitutor =
+            TypeSubstitutor::from_alias(new_params.clone(), type_decl_id.clone());
+        new_substitutor.inherit_alias_chain(context.substitutor);
         if let Some(origin) = type_decl.get_alias_origin(context.db, Some(&new_substitutor)) {
             return origin;
         }
